@@ -59,6 +59,37 @@ struct Item {
     as_: Option<Name>,
 }
 
+/// entry of a map pattern: `key`, `key as target`, `key as _` (target None); `str_key` only selects
+/// the spelling `'key' as target` (same semantics)
+#[derive(Clone, Debug, Serialize, Deserialize)]
+struct PEntry {
+    key: Name,
+    target: Option<Name>,
+    #[serde(default)]
+    str_key: bool,
+}
+
+#[derive(Clone, Debug, Serialize, Deserialize)]
+enum Target {
+    Id(Name),
+    Ignored,
+    Map(Vec<PEntry>),
+}
+
+#[derive(Clone, Debug, Serialize, Deserialize)]
+enum Rhs {
+    Lit(i64),
+    Ref(Name),
+}
+
+fn target_bound(t: &Target) -> Vec<Name> {
+    match t {
+        Target::Id(k) => vec![*k],
+        Target::Ignored => vec![],
+        Target::Map(es) => es.iter().filter_map(|e| e.target).collect(),
+    }
+}
+
 #[derive(Clone, Debug, Serialize, Deserialize)]
 enum Act {
     Print(u32),
@@ -71,6 +102,8 @@ enum Act {
     FromAll(Name),
     Try(Name, u32),
     Fail(u32),
+    /// `[export] t1, t2, … = r1, r2, …`
+    Pat(bool, Vec<Target>, Vec<Rhs>),
 }
 
 #[derive(Clone, Debug, Serialize, Deserialize)]
@@ -145,6 +178,33 @@ fn act_sexp(a: &Act) -> String {
         Act::FromAll(m) => format!("(fromall {})", m),
         Act::Try(m, mk) => format!("(try {} {})", m, mk),
         Act::Fail(mk) => format!("(fail {})", mk),
+        Act::Pat(e, ts, rs) => format!(
+            "(pat {} ({}) ({}))",
+            *e as u8,
+            ts.iter()
+                .map(|t| match t {
+                    Target::Id(k) => format!("(id {})", k),
+                    Target::Ignored => "(ign)".to_string(),
+                    Target::Map(es) => format!(
+                        "(map{})",
+                        es.iter()
+                            .map(|e| match e.target {
+                                Some(t) => format!(" (e {} {})", e.key, t),
+                                None => format!(" (e {} _)", e.key),
+                            })
+                            .collect::<String>()
+                    ),
+                })
+                .collect::<Vec<_>>()
+                .join(" "),
+            rs.iter()
+                .map(|r| match r {
+                    Rhs::Lit(n) => format!("(lit {})", n),
+                    Rhs::Ref(k) => format!("(ref {})", k),
+                })
+                .collect::<Vec<_>>()
+                .join(" ")
+        ),
     }
 }
 
@@ -220,6 +280,7 @@ fn act_src(a: &Act, ind: &str, out: &mut Vec<String>) {
                 ("'unable to find module'", "nf"),
                 ("'boom'", "thrown"),
                 ("'not found in'", "access"),
+                ("\"supports '.' access\"", "access"),
                 ("\"' not found\"", "idnf"),
                 ("'import id or string'", "type"),
                 ("'Key/Value pair to export'", "exportentry"),
@@ -233,6 +294,37 @@ fn act_src(a: &Act, ind: &str, out: &mut Vec<String>) {
             out.push(format!("{ind}    print 'C{mk}:other'"));
         }
         Act::Fail(mk) => out.push(format!("{ind}throw 'boom{mk}'")),
+        Act::Pat(e, ts, rs) => {
+            let tsrc: Vec<String> = ts
+                .iter()
+                .map(|t| match t {
+                    Target::Id(k) => name_str(*k),
+                    Target::Ignored => "_".to_string(),
+                    Target::Map(es) => format!(
+                        "{{{}}}",
+                        es.iter()
+                            .map(|e| {
+                                let key = if e.str_key { format!("'{}'", name_str(e.key)) } else { name_str(e.key) };
+                                match e.target {
+                                    Some(t) if t == e.key && !e.str_key => key,
+                                    Some(t) => format!("{} as {}", key, name_str(t)),
+                                    None => format!("{} as _", key),
+                                }
+                            })
+                            .collect::<Vec<_>>()
+                            .join(", ")
+                    ),
+                })
+                .collect();
+            let rsrc: Vec<String> = rs
+                .iter()
+                .map(|r| match r {
+                    Rhs::Lit(n) => n.to_string(),
+                    Rhs::Ref(k) => name_str(*k),
+                })
+                .collect();
+            out.push(format!("{ind}{}{} = {}", if *e { "export " } else { "" }, tsrc.join(", "), rsrc.join(", ")));
+        }
     }
 }
 
@@ -301,7 +393,7 @@ fn classify(full: &str) -> String {
         "nf".into()
     } else if msg.contains("boom") {
         "thrown".into()
-    } else if msg.contains("not found in") {
+    } else if msg.contains("not found in") || msg.contains("supports '.' access") {
         "access".into()
     } else if msg.contains("' not found") {
         "idnf".into()
@@ -684,6 +776,11 @@ fn direct_laws(sc: &Scenario, outs: &[OpOut]) -> Option<(String, String)> {
                 if let Act::Export(k, _) | Act::ExportId(k, _) = a {
                     allowed.insert(kvh::hex(name_str(*k).as_bytes()));
                 }
+                if let Act::Pat(true, ts, _) = a {
+                    for k in ts.iter().flat_map(target_bound) {
+                        allowed.insert(kvh::hex(name_str(k).as_bytes()));
+                    }
+                }
             }
             let ex = &outs.get(i)?.exports;
             for key in top_level_keys(ex) {
@@ -707,17 +804,50 @@ fn direct_laws(sc: &Scenario, outs: &[OpOut]) -> Option<(String, String)> {
         }
         let acts: Vec<&Act> = o.body.iter().filter_map(|t| if let TAct::A(a) = t { Some(a) } else { None }).collect();
         let entries = top_level_entries(&out.exports);
+        // export_pattern_visible: every id bound by an exported (multi-)assignment — plain ids and ids
+        // bound inside map patterns, with or without `as` — is a key of the exports map
+        for a in acts.iter() {
+            if let Act::Pat(e, ts, _) = a {
+                if *e || o.export_top {
+                    for k in ts.iter().flat_map(target_bound) {
+                        let key = kvh::hex(name_str(k).as_bytes());
+                        if !entries.iter().any(|(kk, _)| *kk == key) {
+                            return Some((
+                                "export-pattern".into(),
+                                format!("after operation {} the id {} bound by an exported assignment is not in the exports map", i, name_str(k)),
+                            ));
+                        }
+                    }
+                }
+            }
+        }
+        // (statement index, key, expected integer) for statements that export a literal
+        let mut lits: Vec<(usize, Name, i64)> = vec![];
         for (j, a) in acts.iter().enumerate() {
-            let (k, v) = match a {
-                Act::Export(k, v) => (*k, *v),
-                Act::Assign(k, v) if o.export_top => (*k, *v),
-                _ => continue,
-            };
+            match a {
+                Act::Export(k, v) => lits.push((j, *k, *v)),
+                Act::Assign(k, v) if o.export_top => lits.push((j, *k, *v)),
+                Act::Pat(e, ts, rs) if *e || o.export_top => {
+                    // within one statement the last binding of a key wins: only keep keys bound once
+                    let all: Vec<Name> = ts.iter().flat_map(target_bound).collect();
+                    for (idx, t) in ts.iter().enumerate() {
+                        if let (Target::Id(k), Some(Rhs::Lit(v))) = (t, rs.get(idx)) {
+                            if all.iter().filter(|x| **x == *k).count() == 1 {
+                                lits.push((j, *k, *v));
+                            }
+                        }
+                    }
+                }
+                _ => {}
+            }
+        }
+        for (j, k, v) in lits {
             let later_writes = acts[j + 1..].iter().any(|b| match b {
                 Act::Export(k2, _) | Act::ExportId(k2, _) => *k2 == k,
                 Act::Assign(k2, _) => o.export_top && *k2 == k,
                 Act::Import(items) | Act::From(_, items) => o.export_top && items.iter().any(|it| it.name == k || it.as_ == Some(k)),
                 Act::FromAll(_) => o.export_top,
+                Act::Pat(e2, ts2, _) => (*e2 || o.export_top) && ts2.iter().flat_map(target_bound).any(|x| x == k),
                 _ => false,
             });
             if later_writes {
@@ -805,12 +935,15 @@ struct Gen<'a> {
     visible: Vec<Name>,
     /// avoid the documented shape of F-C18-2 while that finding is open
     filter_f2: bool,
+    /// locals of the current body that (probably) hold a module's exports map
+    mod_bound: Vec<Name>,
 }
 
 fn act_binds(a: &Act) -> Vec<Name> {
     match a {
         Act::Export(k, _) | Act::Assign(k, _) | Act::ExportId(k, _) => vec![*k],
         Act::Import(items) | Act::From(_, items) => items.iter().map(|i| i.as_.unwrap_or(i.name)).collect(),
+        Act::Pat(_, ts, _) => ts.iter().flat_map(target_bound).collect(),
         _ => vec![],
     }
 }
@@ -857,6 +990,61 @@ impl<'a> Gen<'a> {
         }
     }
 
+    /// one map-pattern entry over the usual export keys
+    fn pentry(&mut self) -> PEntry {
+        let key = *self.rng.pick(KEYS);
+        let target = match self.rng.weighted(&[4, 4, 2]) {
+            0 => Some(key),
+            1 => Some(*self.rng.pick(&[60, 61, 62, 63, 64, 65])),
+            _ => None,
+        };
+        PEntry { key, target, str_key: target.is_some() && self.rng.chance(1, 5) }
+    }
+
+    /// `[export] t1, t2, … = r1, r2, …` over every target shape the grammar allows in assignments
+    /// (id, `_`, map pattern with plain / `as` / string-key / ignored entries); map patterns are matched
+    /// against locals that probably hold a module. Envelope: one target ⇒ one right-hand value, several
+    /// targets ⇒ at least two values (a single non-tuple value would be iterated).
+    fn pat_act(&mut self, mods: &[Name], targets: &[Name], exp: bool) -> Act {
+        let n = 1 + self.rng.weighted(&[3, 4, 2]);
+        let mut ts = vec![];
+        for _ in 0..n {
+            let t = match self.rng.weighted(&[5, if n >= 2 { 2 } else { 0 }, 4]) {
+                0 => Target::Id(self.key(mods)),
+                1 => Target::Ignored,
+                _ => {
+                    let k = 1 + self.rng.below(3);
+                    Target::Map((0..k).map(|_| self.pentry()).collect())
+                }
+            };
+            ts.push(t);
+        }
+        let m = if n == 1 {
+            1
+        } else {
+            match self.rng.weighted(&[8, 1, 1]) {
+                0 => n,
+                1 => (n - 1).max(2),
+                _ => n + 1,
+            }
+        };
+        let mut rs = vec![];
+        for i in 0..m {
+            let wants_map = matches!(ts.get(i), Some(Target::Map(_)));
+            let r = if wants_map && !self.mod_bound.is_empty() && self.rng.chance(9, 10) {
+                Rhs::Ref(*self.rng.pick(&self.mod_bound.clone()))
+            } else if wants_map && self.rng.chance(1, 2) && !targets.is_empty() {
+                Rhs::Ref(*self.rng.pick(targets))
+            } else if self.rng.chance(2, 3) || (self.bound.is_empty() && self.visible.is_empty()) {
+                Rhs::Lit(self.rng.range(-3, 40))
+            } else {
+                Rhs::Ref(self.read_target(targets))
+            };
+            rs.push(r);
+        }
+        Act::Pat(exp, ts, rs)
+    }
+
     /// an id to read: mostly one that is probably bound (local or visible non-local)
     fn read_target(&mut self, targets: &[Name]) -> Name {
         let mut known: Vec<Name> = self.bound.clone();
@@ -878,6 +1066,9 @@ impl<'a> Gen<'a> {
             // a wildcard import probably makes the usual export keys visible as non-locals
             self.visible.extend_from_slice(KEYS);
         }
+        if let Act::Import(items) = &a {
+            self.mod_bound.extend(items.iter().map(|i| i.as_.unwrap_or(i.name)));
+        }
         a
     }
 
@@ -885,6 +1076,10 @@ impl<'a> Gen<'a> {
         // reading an id when nothing is bound yet mostly fails with "not found": keep that rare
         let nothing_known = self.bound.is_empty() && self.visible.is_empty();
         let read_w = if nothing_known { 1 } else { 4 };
+        if self.rng.chance(1, 9) {
+            let exp = self.rng.chance(3, 5);
+            return self.pat_act(mods, targets, exp);
+        }
         match self.rng.weighted(&[2, 4, 2, if nothing_known { 0 } else { 1 }, read_w, import_w, fail_pct]) {
             0 => Act::Print(self.mk()),
             1 => Act::Export(self.key(mods), self.rng.range(-3, 40)),
@@ -915,6 +1110,7 @@ impl<'a> Gen<'a> {
     fn module_body(&mut self, mods: &[Name], targets: &[Name], fail_pct: u32) -> Vec<TAct> {
         self.bound.clear();
         self.visible.clear();
+        self.mod_bound.clear();
         let mut b = vec![TAct::A(Act::Print(self.mk()))];
         let n = 1 + self.rng.below(5);
         let mut test_names: Vec<Name> = vec![70, 71, 72];
@@ -944,6 +1140,7 @@ impl<'a> Gen<'a> {
         let n = 1 + self.rng.below(4);
         let mut b = vec![];
         self.bound.clear();
+        self.mod_bound.clear();
         for _ in 0..n {
             if allow_defs && self.rng.chance(1, 40) {
                 let mk = self.mk();
@@ -969,7 +1166,11 @@ impl<'a> Gen<'a> {
                 if let Act::FromAll(_) = &a {
                     self.visible.extend_from_slice(KEYS);
                 }
+                if let Act::Import(items) = &a {
+                    self.mod_bound.extend(items.iter().map(|i| i.as_.unwrap_or(i.name)));
+                }
                 match &a {
+                    Act::Pat(e, ..) if *e || export_top => self.visible.extend(binds.iter().copied()),
                     Act::Export(k, _) | Act::ExportId(k, _) => self.visible.push(*k),
                     Act::Assign(k, _) if export_top => self.visible.push(*k),
                     Act::Import(items) | Act::From(_, items) if export_top => self.visible.extend(items.iter().map(|i| i.name)),
@@ -1524,11 +1725,11 @@ fn main() {
         cx.one(&sc);
     }
     for _ in 0..n_graph {
-        let sc = Gen { rng: &mut rng, marker: 0, bound: vec![], visible: vec![], filter_f2 }.graph();
+        let sc = Gen { rng: &mut rng, marker: 0, bound: vec![], visible: vec![], filter_f2, mod_bound: vec![] }.graph();
         cx.one(&sc);
     }
     for _ in 0..n_random {
-        let sc = Gen { rng: &mut rng, marker: 0, bound: vec![], visible: vec![], filter_f2 }.random();
+        let sc = Gen { rng: &mut rng, marker: 0, bound: vec![], visible: vec![], filter_f2, mod_bound: vec![] }.random();
         cx.one(&sc);
     }
 
